@@ -142,6 +142,14 @@ func findHopGuard(p *Prog, fn *ssa.Function) (*hopForm, string) {
 
 func runC09(p *Prog, r *Report) {
 	q := NewQ(p, r)
+	r.Describe("C09.8/drop-does-not-disconnect", "a message over the hop limit is dropped — only that message: the TTL receivers stay in their loop, so in-limit traffic sharing the connection (a nearer client behind the same device) is unaffected")
+	dropDoesNotDisconnect(p, r, "C09.8/drop-does-not-disconnect", func(rel string) bool {
+		switch rel {
+		case "protocol/rep", "protocol/xrep", "protocol/respondent", "protocol/xrespondent", "protocol/xpair1", "protocol/xstar":
+			return true
+		}
+		return false
+	})
 	R := "C09.1/hop-normal-form"
 	r.Describe(R, "extracted hop guard of each TTL receiver: backtrace receivers admit n routing words iff n <= ttl; xpair1 admits hop counter b iff b <= ttl (and b < 255); xstar admits b iff b < ttl; cooked/raw twins agree")
 	type spec struct {
